@@ -9,7 +9,7 @@ wt="$(realpath "$1")"; id="$2"; shift 2
 [ -d "$wt/versatiles_core" ] || { echo "not a worktree of the repository: $wt" >&2; exit 2; }
 vh="$wt/.vh"
 mkdir -p "$vh/out"
-rsync -a --delete --exclude target --exclude fuzz/target /verif/harness/ "$vh/harness/"
+rsync -a --delete --exclude target --exclude fuzz/target "${HARNESS_SRC:-/verif/harness}/" "$vh/harness/"
 sed -i "s|/repo/|$wt/|g" "$vh/harness/Cargo.toml" "$vh/harness/fuzz/Cargo.toml"
 cat > "$vh/harness/.cargo/config.toml" <<EOC
 [net]
